@@ -61,6 +61,7 @@ def generate(G):
     ob("recip_2x1", "Recip", [L([2, 1], "Pos")], "thorough", 6, stubs=("powf",))
     ob("relu_3", "Relu", [L([3], "Sgn")], "quick", 6)
     ob("relu_2x2", "Relu", [L([2, 2], "Sgn")], "thorough", 8)
+    ob("relu_dead_2", "Relu", [L([2], "Neg1")], "quick", 6, skel={"input": "concrete -1 (all units inactive): the delta delivered is zeros, not missing"})
     ob("sigmoid_2", "Sigmoid", [L([2], "D2")], "quick", 6, stubs=("exp",), inexact=True)
     ob("sigmoid_1x2", "Sigmoid", [L([1, 2])], "thorough", 6, stubs=("exp",), inexact=True)
     ob("softmax_1x2", "Softmax", [L([1, 2], "D2")], "thorough", 8, stubs=("exp", "powf"), inexact=True)
